@@ -183,6 +183,14 @@ class Run:
                 print(f"  {v['what']}"[:600])
             if len(self.violations) > 50:
                 print(f"  ... and {len(self.violations) - 50} more violations")
+            groups: dict[str, int] = {}
+            for v in self.violations:
+                g = json.dumps({k: x for k, x in v["sig"].items()
+                                if k not in ("key", "id")}, sort_keys=True, default=str)
+                groups[g] = groups.get(g, 0) + 1
+            print("violations grouped by signature:")
+            for g, n in sorted(groups.items(), key=lambda kv: -kv[1])[:40]:
+                print(f"  {n:6d}  {g}")
         cov = dict(self.coverage)
         cov.setdefault("samples", self.samples or ["(none recorded)"])
         cov["known_findings_hit"] = dict(self.known_hits)
